@@ -293,6 +293,9 @@ THEOREMS = {
         ],
     },
     "C18": {
+        "JP.Props.C19bytes": [
+            "JP.C19.apply_output_valid_legacy", "JP.C19.apply_empty_doc_legacy",
+        ],
         "JP.Props.C04legacy": [
             "JP.C04.legacy_decode_apply_no_panic",
         ],
@@ -302,6 +305,16 @@ THEOREMS = {
         ],
     },
     "C19": {
+        "JP.Props.C19bytes": [
+            "JP.C19.text_layer_legacy", "JP.C19.mergePatch_bytes_legacy", "JP.C19.mergePatch_bytes_legacy_eqv",
+            "JP.C19.merge_scalar_rejected_legacy", "JP.C19.mergePatch_errors_legacy", "JP.C19.mergeMerge_bytes_legacy",
+            "JP.C19.library_law_legacy", "JP.C19.create_value_legacy", "JP.C19.create_refines_legacy",
+            "JP.C19.create_roundtrip_legacy", "JP.C19.create_roundtrip_merge_legacy", "JP.C19.create_minimal_legacy",
+            "JP.C19.create_null_legacy", "JP.C19.resemblesJSONArray_eq", "JP.C19.create_rejects_legacy",
+            "JP.C19.create_array_refines_legacy", "JP.C19.equal_bytes_legacy", "JP.C19.equal_text_legacy",
+            "JP.C19.equal_malformed_legacy", "JP.C19.merge_output_valid_legacy", "JP.C19.create_output_valid_legacy",
+            "JP.C19.apply_output_valid_legacy",
+        ],
         "JP.Props.C03spec": [
             "JP.C03.roundtrip", "JP.C03.empty_iff", "JP.C03.minimal_rec",
         ],
@@ -328,7 +341,7 @@ OPEN = {
     "C16": ["Apply with leading CR before an ARRAY document: accepted, but pointers with an empty first token see the `isArray` quirk (C16.apply_ws needs CR-free white space for arrays; outside the RFC pointer domain)"],
     "C17": ["the reflective DECODER is described at value level (decodeDoc/childOf/anyOf); its literal model JP/Codec/Decode is in progress (the encoder is modelled literally in JP/Codec/Encode.lean and proved to print cstOf / marshalAnyE)",
             "struct tags, float formatting, Decoder/Encoder streams: differential testing only"],
-    "C19": ["refinement of the legacy CreateMergePatch model to Spec.diff and byte-level closure of the legacy merge functions (in progress)"],
+    "C19": ["CreateMergePatch is modelled for plain-integer numbers only (float64 formatting is not modelled): the `createModelled` domain marker"],
     "C20": ["go-flags, OS, process exit: observed only"],
 }
 ASSUME = {
